@@ -206,7 +206,13 @@ pub fn check_radial_against_spec(s: &DrdSpec, msg: &drd::Message, r: &Radial) ->
     ensure_eq!(r.elevation_number(), h.elev_num, "radial:elevation_number");
     ensure_eq!(r.elevation_angle_degrees().to_bits(), h.elev_angle_bits, "radial:elevation_angle");
     ensure_eq!(r.azimuth_spacing_degrees(), 0.5 * h.az_spacing as f32, "radial:azimuth_spacing", "spacing code {}", h.az_spacing);
-    ensure_eq!(r.collection_timestamp(), epoch_millis(h.date, h.time as u64), "radial:collection_timestamp", "date {} time {}", h.date, h.time);
+    // the collection time is the header's date-time in epoch milliseconds: compared with the header
+    // accessor for every header, and with the closed form on the documented domain (day count >= 1)
+    let header_ms = msg.header.date_time().map(|d| d.timestamp_millis());
+    ensure_eq!(Some(r.collection_timestamp()), header_ms, "radial:collection_timestamp-differs-from-header-date_time", "date {} time {}", h.date, h.time);
+    if h.date >= 1 && h.time < 86_400_000 {
+        ensure_eq!(r.collection_timestamp(), epoch_millis(h.date, h.time as u64), "radial:collection_timestamp", "date {} time {}", h.date, h.time);
+    }
     // one-to-one status: documented codes 0..=5 map to the six names; other codes map as the header accessor does
     let model_status = format!("{:?}", r.radial_status());
     if (h.status as usize) < 6 {
@@ -374,12 +380,52 @@ pub fn run(ctx: &Ctx, rep: &mut Report) {
         rep.require_class(sub, "scale-zero", 3);
     }
 
+    // first conversion on a brand-new thread (state such as caches starts empty there), incl. day count 0
+    {
+        let mut n = 0u64;
+        let dates: [u16; 8] = [0, 0, 1, 2, 19_000, 32_768, 65_535, 0];
+        for (i, date) in dates.iter().enumerate() {
+            for time in [0u32, 1, 86_399_999] {
+                let mut spec = base_spec();
+                spec.header.date = *date;
+                spec.header.time = time;
+                let follow_up = dates[(i + 3) % dates.len()];
+                let c = RadialCase { drd: spec };
+                n += 1;
+                let r = std::thread::spawn(move || {
+                    let first = crate::runner::guard(|| check_radial(&c)).unwrap_or_else(|p| Err(Fail::new("panic:oracle-or-code", p)));
+                    // and a second conversion with another date on the same thread
+                    let mut c2 = c.clone();
+                    c2.drd.header.date = follow_up;
+                    let second = crate::runner::guard(|| check_radial(&c2)).unwrap_or_else(|p| Err(Fail::new("panic:oracle-or-code", p)));
+                    let third = crate::runner::guard(|| check_radial(&c)).unwrap_or_else(|p| Err(Fail::new("panic:oracle-or-code", p)));
+                    (first.and(second).and(third), c)
+                })
+                .join();
+                match r {
+                    Ok((Err(f), c)) => rep.record_failure("radials", f, serde_json::json!(c)),
+                    Ok((Ok(()), _)) => {}
+                    Err(_) => rep.record_failure("radials", Fail::new("panic:oracle-or-code", "fresh-thread probe panicked"), serde_json::Value::Null),
+                }
+            }
+        }
+        rep.enumerated("fresh-thread-conversions", "radial conversions performed as the FIRST conversion on a brand-new thread (day counts 0, 1, 2, 19000, 32768, 65535 x times 0, 1, 86399999), followed by a second date and the first again on the same thread", n, n, false);
+        rep.sample("fresh-thread-conversions", serde_json::json!({"date": 0, "time": 0}));
+    }
+
     let opts = DrdOpts { contiguous: true, finite: true, big_gates: false, word16: true, valid_datetime: true, small: false, known_vcp: false };
     rep.prop(
         "radials",
         "proptest: decode-level messages built from public fields: valid date/time, all 256 spacing and status codes, finite angles, each of the 7 moments present/absent with 0..=64 (some to 1840) gates of 8 or 16 bits and finite scale/offset; oracle = radial() == into_radial(), accessor-by-accessor mapping, one value per gate by the closed form, decode level == model level; non-trivial = >= 1 moment with >= 2 gates and scale != 0",
         ctx.tier.pick(100_000, 2_000_000),
-        move || gen::drd(opts, gen::elevation_any(), None).prop_map(|drd| RadialCase { drd }),
+        move || {
+            (gen::drd(opts, gen::elevation_any(), None), prop_oneof![12 => Just(false), 1 => Just(true)]).prop_map(|(mut drd, day_zero)| {
+                if day_zero {
+                    drd.header.date = 0; // outside the documented domain: only consistency with the header accessor is judged
+                }
+                RadialCase { drd }
+            })
+        },
         |c| {
             let ms: Vec<&MomentSpec> = c.drd.moments.iter().flatten().collect();
             CaseInfo::new(ms.iter().any(|m| m.gates >= 2 && f32::from_bits(m.scale_bits) != 0.0))
@@ -388,6 +434,7 @@ pub fn run(ctx: &Ctx, rep: &mut Report) {
                 .class(ms.iter().any(|m| m.word_size == 16 && m.gates > 0), "16-bit-moment")
                 .class(ms.iter().any(|m| m.gates == 0), "zero-gates")
                 .class(c.drd.header.status >= 6, "status-code-above-5")
+                .class(c.drd.header.date == 0, "day-count-zero")
         },
         check_radial,
     );
